@@ -18,7 +18,10 @@ Record kcfg := {
 Record cobs := {
   b_err : bool; b_out : N; b_table : table; b_frame : bool;
   b_calls : list bytes;         (* the byte strings the signer was called with, in order *)
-  b_time_ok : bool }.           (* Go's time parser reads the stored document's time member back as the event's instant
+  b_time_ok : bool;
+  b_final : option bytes;       (* the value under the format's name re-read after later Process calls on other events (same
+                                   and other goroutines) *)
+  b_later : N }.                (* number of later Process calls after which it was first seen changed; 0: never *)           (* Go's time parser reads the stored document's time member back as the event's instant
                                    (true when nothing is stored) *)
 Record kcase := {
   k_cfg : kcfg; k_evnil : bool; k_type : bytes; k_time : option bytes; k_payload : kpayload; k_pre : table;
@@ -39,6 +42,7 @@ Inductive kind :=
 | KSer          (* observation-only: serialized does not decode to the signer's input, serialized_hmac is not the signer's
                    result on it, or an event that must not be signed carries them *)
 | KIndent       (* observation-only: the text format is not indented / the json format is not one line *)
+| KStoredMutated (* observation-only: the stored document changed after Process had returned; step = later Process calls it took *)
 | KFresh        (* observation-only: a fresh id is empty or was used twice *)
 | KModel.
 
@@ -135,6 +139,19 @@ Definition indent_ok (f : cformat) (b : bytes) : bool :=
   | _ => single_line b
   end.
 
+Definition doc_checks (k : kcfg) (c : kcase) (calls : list bytes) (time_ok : bool) (stored : option bytes) : list kind :=
+  match stored with
+  | Some b =>
+      match parse_doc b with
+      | Some (JObj ms) =>
+          (if fields_ok k c ms && time_ok then [] else [KFields]) ++
+          (if ser_ok k c ms calls then [] else [KSer]) ++
+          (if indent_ok (k_format k) b then [] else [KIndent])
+      | _ => [KParse]
+      end
+  | None => [KParse]
+  end.
+
 Definition run_ce (c : kcase) : list kind :=
   let '(e', oc, calls) := model_ce c in
   let o := k_obs c in
@@ -149,23 +166,15 @@ Definition run_ce (c : kcase) : list kind :=
   (if b_frame o then [] else [KFrame]) ++
   (if list_beqb calls (b_calls o) then [] else [KSignIn]) ++
   (* observation-only: whenever the node reports success, what is stored must be the document the property describes *)
-  (if negb (b_err o) then
-     match tget key (b_table o) with
-     | Some b =>
-         match parse_doc b with
-         | Some (JObj ms) =>
-             (if fields_ok k c ms && b_time_ok o then [] else [KFields]) ++
-             (if ser_ok k c ms (b_calls o) then [] else [KSer]) ++
-             (if indent_ok (k_format k) b then [] else [KIndent])
-         | _ => [KParse]
-         end
-     | None => [KParse]
-     end
-   else []).
+  (if negb (b_err o) then doc_checks k c (b_calls o) (b_time_ok o) (tget key (b_table o)) else []) ++
+  (* observation-only: the stored document is still the same when re-read after later Process calls on other events; if it
+     is not, the oracle is run again on what is there now *)
+  (if obeqb (tget key (b_table o)) (b_final o) then []
+   else KStoredMutated :: (if negb (b_err o) then doc_checks k c (b_calls o) true (b_final o) else [])).
 
 Definition run_case (c : ccase) : list (N * (N * N * kind)) :=
   match c with
-  | CCe id k => map (fun x => (id, (0, opkind k, x))) (run_ce k)
+  | CCe id k => map (fun x => (id, (match x with KStoredMutated => b_later (k_obs k) | _ => 0 end, opkind k, x))) (run_ce k)
   | CFresh id ids => if forallb nonempty ids && nodupb ids then [] else [(id, (0, 4, KFresh))]
   end.
 Definition mismatches (cs : list ccase) : list (N * (N * N * kind)) := flat_map run_case cs.
